@@ -7,6 +7,7 @@
    cal a g = float32(a) * g (abstract: the theorems hold for every cal).
    read cal None ..  = Reader.read on a .bin,  read cal (Some bounds) .. on a .cbin.
    A result is (row axis dropped, column axis dropped, #columns, cells by row). *)
+From Coq Require Import String.
 From Coq Require Import ZArith List Bool Lia.
 From IBL.lib Require Import PyInt.
 From IBL.C01 Require Import Model Proofs Geometry AlignProofs SyncProofs.
@@ -202,6 +203,76 @@ Theorem C01_sync_unscaled : forall x, -32768 <= x <= 32767 ->
   IBL.C03.F32.trunc32 (IBL.C03.F32.sample2v IBL.C03.F32.gain_one x) = x.
 Proof. exact sync_unscaled_all. Qed.
 Print Assumptions C01_sync_unscaled.
+
+(* GAIN ALIGNMENT (joint with C09: IBL.C09.Model.sample2volts is C09's model of
+   _conversion_sample2v_from_meta + Reader.sample2volts on the parsed meta text; entries
+   CG g = range/maxint/g, C1 = 1).  Whatever vector C09's model assigns to the stream, used
+   as the reader's gain vector in ON-DISK order: the calibrated array exists, its cell (i, j)
+   is cal(raw[i][order[j]], g[order[j]]), and every read is NumPy indexing of it. *)
+Theorem C01_gain_alignment :
+  forall (A V : Type) (cal : A -> M9.conv -> V) d r mi g raw ns nc order,
+  M9.sample2volts d = Some (r, mi, g) -> zlen g = nc -> rect raw ns nc -> order_ok order nc ->
+  exists M, calibrated_sorted cal raw order g = Some M /\
+    (forall i j v,
+       (exists Mrow, zget M i = Some Mrow /\ zget Mrow j = Some v) <->
+       (exists row c a gc, zget raw i = Some row /\ zget order j = Some c /\
+                           zget row c = Some a /\ zget g c = Some gc /\ v = cal a gc)) /\
+    (forall nsel csel, is_fancy nsel && is_fancy csel = false ->
+       ((exists x, sel_positions ns nsel = Ok x) \/ (exists x, sel_positions nc csel = Ok x)) ->
+       read cal None raw nc order g nsel csel = np_index2 M ns nc nsel csel).
+Proof. intros A V. exact (@gain_alignment A V). Qed.
+Print Assumptions C01_gain_alignment.
+
+(* nidq streams, every layout snsMnMaXaDw = MN,MA,XA,DW with counts >= 0 — ZERO INCLUDED
+   (no digital word saved, analog-only, digital-only): the reader's gain vector has
+   MN+MA+XA+DW entries; on-disk channel c is scaled by range/maxint/niMNGain for c < MN, by
+   range/maxint/niMAGain for the next MA, by range/maxint for the next XA, and is left
+   unscaled exactly on the last DW channels; reads are NumPy indexing of the array
+   calibrated with these factors. *)
+Theorem C01_nidq_gain_alignment :
+  forall (A V : Type) (cal : A -> M9.conv -> V) d rng mi gmn gma c0 c1 c2 c3 raw ns nc order,
+  M9.int2volt d = Some (rng, mi) ->
+  M9.lookup (M9.lit "imroTbl"%string) d = None ->
+  M9.lookup (M9.lit "niMNGain"%string) d = Some (M9.VNum gmn) ->
+  M9.lookup (M9.lit "niMAGain"%string) d = Some (M9.VNum gma) ->
+  M9.lookup (M9.lit "snsMnMaXaDw"%string) d = Some (M9.VList [c0; c1; c2; c3]) ->
+  0 <= M9.dec_trunc c0 -> 0 <= M9.dec_trunc c1 -> 0 <= M9.dec_trunc c2 -> 0 <= M9.dec_trunc c3 ->
+  M9.get_type d = Some (Some M9.SNidq) ->
+  nc = M9.dec_trunc c0 + M9.dec_trunc c1 + M9.dec_trunc c2 + M9.dec_trunc c3 ->
+  rect raw ns nc -> order_ok order nc ->
+  let n0 := M9.dec_trunc c0 in let n1 := M9.dec_trunc c1 in
+  let n2 := M9.dec_trunc c2 in let n3 := M9.dec_trunc c3 in
+  exists g M,
+    M9.sample2volts d = Some (rng, mi, g) /\ zlen g = nc /\
+    (forall c, (0 <= c < n0 -> zget g c = Some (M9.CG gmn)) /\
+               (n0 <= c < n0 + n1 -> zget g c = Some (M9.CG gma)) /\
+               (n0 + n1 <= c < n0 + n1 + n2 -> zget g c = Some (M9.CG (1, O))) /\
+               (n0 + n1 + n2 <= c < nc -> zget g c = Some M9.C1)) /\
+    calibrated_sorted cal raw order g = Some M /\
+    (forall i j v,
+       (exists Mrow, zget M i = Some Mrow /\ zget Mrow j = Some v) <->
+       (exists row c a gc, zget raw i = Some row /\ zget order j = Some c /\
+                           zget row c = Some a /\ zget g c = Some gc /\ v = cal a gc)) /\
+    (forall nsel csel, is_fancy nsel && is_fancy csel = false ->
+       ((exists x, sel_positions ns nsel = Ok x) \/ (exists x, sel_positions nc csel = Ok x)) ->
+       read cal None raw nc order g nsel csel = np_index2 M ns nc nsel csel).
+Proof.
+  intros A V cal d rng mi gmn gma c0 c1 c2 c3 raw ns nc order Hi Ht Hmn Hma Hx H0 H1 H2 H3 Hty Hnc Hr Ho.
+  cbv zeta.
+  destruct (T9.C09_s2v_nidq d rng mi gmn gma c0 c1 c2 c3 Hi Ht Hmn Hma Hx H0 H1 H2 H3) as [Hs _].
+  set (g := M9.zrepeat (M9.CG gmn) (M9.dec_trunc c0) ++ M9.zrepeat (M9.CG gma) (M9.dec_trunc c1) ++
+            M9.zrepeat (M9.CG (1, O)) (M9.dec_trunc c2) ++ M9.zrepeat M9.C1 (M9.dec_trunc c3)) in *.
+  destruct (T9.C09_sample2volts_table d rng mi) as [_ Htab].
+  pose proof (Htab g Hs Hty) as Hsv.
+  assert (Hlen : zlen g = nc).
+  { subst nc. exact (proj1 (nidq_gain_classes gmn gma _ _ _ _ 0 H0 H1 H2 H3)). }
+  destruct (gain_alignment cal d rng mi g raw ns nc order Hsv Hlen Hr Ho) as [M [HM [Hc Hrd]]].
+  exists g, M. split; [exact Hsv|]. split; [exact Hlen|]. split.
+  - intros c. subst nc. destruct (nidq_gain_classes gmn gma _ _ _ _ c H0 H1 H2 H3) as [_ [A1 [A2 [A3 A4]]]].
+    auto.
+  - auto.
+Qed.
+Print Assumptions C01_nidq_gain_alignment.
 
 (* ---- refuted clauses (faithful model; confirmed on the real code, see notes) ---- *)
 Definition ex_raw : list (list (Z * Z)) :=
